@@ -23,6 +23,7 @@ type c20Result struct {
 	Requests   int64             `json:"requests"`
 	Faulted    int64             `json:"faulted"`
 	Worlds     int64             `json:"worlds"`
+	Anomalies  int64             `json:"anomalies"` // goroutine count above the baseline once, not reproduced
 	Nontrivial []uint64          `json:"nontrivial"`
 	Viols      []core.Violation  `json:"viols"`
 	MaxSettle  float64           `json:"max_settle_ms"`
@@ -145,6 +146,26 @@ func c20ExtraWorlds() []*ref.World {
 	}
 	ts2 = append(ts2, ref.Tuple{Obj: "group:150", Rel: "member", User: "user:a"})
 	out = append(out, &ref.World{M: m, Tuples: ts2, U: u2})
+	// wide fan-outs with the granting branch FIRST, LAST or absent (a consumer that short-circuits while
+	// the producer still has branches to hand out, one that drains everything, one that finds nothing):
+	// 60 usersets on one doc, and 60 tuple-to-userset parents of one doc
+	mt := &ref.Model{Types: map[string]map[string]*ref.RelDef{"user": {}, "group": {"member": rd(ref.This(), user)},
+		"doc": {"parent": rd(ref.This(), ref.Restr{Type: "group"}), "r0": rd(ref.TTU("parent", "member"))}}}
+	mu := &ref.Model{Types: map[string]map[string]*ref.RelDef{"user": {}, "group": {"member": rd(ref.This(), user)}, "doc": {"r0": rd(ref.This(), member)}}}
+	for _, grant := range []int{1, 60, 0} {
+		uf := ref.Universe{"user": {"user:a"}, "group": {}, "doc": {"doc:1"}}
+		var tt, tu []ref.Tuple
+		for i := 1; i <= 60; i++ {
+			uf["group"] = append(uf["group"], fmt.Sprintf("group:%02d", i))
+			tt = append(tt, ref.Tuple{Obj: "doc:1", Rel: "parent", User: fmt.Sprintf("group:%02d", i)})
+			tu = append(tu, ref.Tuple{Obj: "doc:1", Rel: "r0", User: fmt.Sprintf("group:%02d#member", i)})
+		}
+		if grant > 0 {
+			g := ref.Tuple{Obj: fmt.Sprintf("group:%02d", grant), Rel: "member", User: "user:a"}
+			tt, tu = append(tt, g), append(tu, g)
+		}
+		out = append(out, &ref.World{M: mt, Tuples: tt, U: uf}, &ref.World{M: mu, Tuples: tu, U: uf})
+	}
 	// TTU cycle
 	m3 := &ref.Model{Types: map[string]map[string]*ref.RelDef{"user": {}, "doc": {"parent": rd(ref.This(), ref.Restr{Type: "doc"}), "r0": rd(ref.Bin(ref.KUnion, ref.This(), ref.TTU("parent", "r0")), user)}}}
 	u3 := ref.Universe{"user": {"user:a"}, "doc": {}}
@@ -256,6 +277,24 @@ func C20(o *core.Options) int {
 						res.MaxSettle = ms
 					}
 					if !ok {
+						// a goroutine of the Go runtime or of a library may appear once; a request that leaves
+						// one behind does so every time: the verdict needs three more executions of the same
+						// (request, cancellation point) that each leave the count higher than before
+						again := 0
+						for rep := 0; rep < 3; rep++ {
+							b2 := runtime.NumGoroutine()
+							ctx2, cancel2 := context.WithCancel(context.Background())
+							fds.Arm(mode, k, cancel2)
+							runC20Req(ctx2, env, q)
+							cancel2()
+							if _, ok2 := settle(b2, 3*time.Second); !ok2 {
+								again++
+							}
+						}
+						if again < 3 {
+							res.Anomalies++
+							continue
+						}
 						res.Viols = append(res.Viols, core.Violation{Signature: "goroutine-left-running-after-return/" + q.Kind + "/" + cfg.Name, Desc: fmt.Sprintf("%s %s cancel@%d: %d goroutines before, %d three seconds after the call returned; model{%s} tuples{%s}\n%s", cfg.Name, q, k, base, runtime.NumGoroutine(), m, e2.TuplesStr(w.Tuples), goroutineDump()), Case: c})
 						return
 					}
@@ -299,6 +338,7 @@ func C20(o *core.Options) int {
 		r.Eval(res.Requests)
 		r.Count("worlds", res.Worlds)
 		r.Count("requests_with_cancellation_delivered", res.Faulted)
+		r.Count("goroutine_count_anomalies_not_reproduced", res.Anomalies)
 		for _, k := range res.Nontrivial {
 			r.Nontrivial(k)
 		}
